@@ -5,7 +5,7 @@
    finite history over any number of threads (a list of operations tagged with thread ids IS an
    interleaving). *)
 From Coq Require Import List Arith Bool.
-From TLV Require Import Model.Backend Proofs.BackendProofs Proofs.BackendNI Proofs.BackendTwo Proofs.BackendMicro.
+From TLV Require Import Model.Backend Proofs.BackendProofs Proofs.BackendNI Proofs.BackendTwo Proofs.BackendMicro Proofs.BackendNorm.
 Import ListNotations.
 
 (* P1 view: after any history a thread's backend is its own most recent effective selection
@@ -229,6 +229,40 @@ Theorem C17_micro_save_sinks : forall (R : rules) (c : cfg) (t : tid) (others : 
 Proof. exact save_sinks. Qed.
 Print Assumptions C17_micro_save_sinks.
 
+(* global normalisation.  The blocks of ANY schedule, in effect order, can be read as a history of
+   whole operations by holding the first half of every context entry back until its second half
+   arrives (normH; `pending` = the threads between the two halves) ... *)
+Theorem C17_micro_linearisation_is_history : forall (R : rules) (c : cfg) (l : list oev) (s : ost),
+  inv c (o_m s) -> kinv R c s ->
+  exists h, forall P, (forall t, P t = pending s t) ->
+    exists P', normH P (snd (orun R c s l)) = Some (h, P') /\
+               forall t, P' t = pending (fst (orun R c s l)) t.
+Proof. exact orun_norm. Qed.
+Print Assumptions C17_micro_linearisation_is_history.
+
+(* ... that reading is sound whenever every first half is executed by a thread holding a selection of
+   its own (the two executions differ only in the saved-backend register of half-done entries) ... *)
+Theorem C17_micro_norm_sound : forall (R : rules) (c : cfg) (H : list aop) (P : tid -> bool) (b b' : bst)
+    (h : list op) (P' : tid -> bool),
+  normH P H = Some (h, P') -> saves_own R c b H -> relP P b b' ->
+  relP P' (arun R c b H) (arun R c b' (map AOp h)).
+Proof. exact norm_sound. Qed.
+Print Assumptions C17_micro_norm_sound.
+
+(* ... hence P5 for thread-safe use: if every thread that enters a context holds a selection of its own
+   at that moment, EVERY schedule of acts of any operations of any number of threads, run to
+   quiescence, is observationally an atomic history of whole operations: there is h with the same
+   final observable state and exactly the answers every thread received *)
+Theorem C17_micro_own_selection_atomic : forall (R : rules) (c : cfg) (b0 : bst) (l : list oev),
+  let s := fst (orun R c (quiet b0) l) in
+  (forall t, m_pend (o_m s) t = []) ->
+  saves_own R c b0 (snd (orun R c (quiet b0) l)) ->
+  exists h : list op,
+    seqv (to_st (m_b (o_m s))) (run R c (to_st b0) h) /\
+    forall t, p_out (b_priv (m_b (o_m s)) t) = p_out (b_priv b0 t) ++ own_trace R c t (to_st b0) h.
+Proof. exact micro_own_selection_atomic. Qed.
+Print Assumptions C17_micro_own_selection_atomic.
+
 (* "backend_context entry is atomic" is refuted (repaired rules): a thread WITHOUT a selection of its
    own enters a non-local context while another thread completes a non-local set_backend between the
    entry's read and its write; a third thread then sees bka, and numpy after the exit - neither
@@ -310,3 +344,19 @@ Example C17_micro_atomic_ops_nonvacuous :
   p_out (b_priv (m_b (o_m (fst r))) 2) = [ODone; OName 1] /\
   p_out (b_priv (m_b (o_m (fst r))) 3) = [OName 1].
 Proof. exact micro_atomic_ops_nonvacuous. Qed.
+
+(* non-vacuity of C17_micro_own_selection_atomic: thread 2 holds Obj 5, enters a NON-local context; thread
+   1's non-local set_backend takes effect between the two halves of the entry (the linearisation is not
+   flat), all hypotheses hold and the history read off is [Set 2; Set 1; Enter 2; Query 3; Exit 2; ...] *)
+Example C17_micro_own_selection_nonvacuous :
+  let r := orun fixed_rules cfg0 (quiet b00) sched_own in
+  (forall t, m_pend (o_m (fst r)) t = []) /\
+  saves_own fixed_rules cfg0 b00 (snd r) /\
+  snd r = [AOp (Set_ 2 (SInst (Obj 5)) true); ASaveOp 2; AOp (Set_ 1 (SName 1) false);
+           AEnterRest 2 (SInst (Obj 0)) false; AOp (Query 3); AOp (Exit_ 2 true); AOp (Query 3); AOp (Query 2)] /\
+  option_map fst (normH (fun _ => false) (snd r))
+  = Some [Set_ 2 (SInst (Obj 5)) true; Set_ 1 (SName 1) false; Enter 2 (SInst (Obj 0)) false; Query 3;
+          Exit_ 2 true; Query 3; Query 2] /\
+  p_out (b_priv (m_b (o_m (fst r))) 3) = [OName 1; OName 6] /\
+  p_out (b_priv (m_b (o_m (fst r))) 2) = [ODone; ODone; ODone; OName 6].
+Proof. exact own_selection_nonvacuous. Qed.
